@@ -467,7 +467,8 @@ def _queued(o):
 def mutate(target, table, op, A, state=0):
     """one operation on a freshly loaded object; returns (M holds, W holds).
     state 0: the object was loaded; 1: it was created and flushed in this session (status 'inserted'); 2: it was loaded, assigned
-    and flushed (status 'updated') - an in-place change after a flush must be queued for saving again"""
+    and flushed (status 'updated') - an in-place change after a flush must be queued for saving again; 3: ANOTHER attribute of the
+    loaded object was assigned just before (status 'modified', already queued): the in-place change must still set its own write bit"""
     from pony.orm import db_session, rollback, flush
     _fresh()
     A.kind = KIND[target]
@@ -475,7 +476,14 @@ def mutate(target, table, op, A, state=0):
     with db_session:
         try:
             o, attr, aname, root, c, parent, key = _load(target)
-            if state:
+            if state == 3:
+                # the object is already 'modified' (queued, another attribute's write bit set) when the in-place change happens
+                ename = TARGETS[target][0]
+                if ename == 'J': o.other = 5
+                elif aname == 'tags': o.names = ['x']
+                else: o.tags = [9]
+                if not (o._status_ == 'modified' and o._wbits_ and not (o._wbits_ & o._bits_[attr]) and wrapped(root, o, attr)): return False, False
+            elif state:
                 ename, pk, _an, path = TARGETS[target]
                 if state == 1:
                     E = J if ename == 'J' else R
@@ -513,7 +521,7 @@ def mutate(target, table, op, A, state=0):
 
 def _state_ops(t, op, state, v):
     """the mutating operations on an object that was already flushed once in this session"""
-    st = 1 if state == 1 else 2
+    st = 1 if state == 1 else 2 if state == 2 else 3
     if t in DICT_TARGETS:
         m, w = mutate(t, DICT_OPS, pick(op, 0, len(DICT_OPS) - 1), Args(k=0, v=v, shape=0, seq=0), state=st)
     else:
@@ -1118,7 +1126,7 @@ def d_read_jd1b(op: int, k: int, v: int, shape: int) -> bool:
 def state_ops_jl1(op: int, state: int, v: int) -> bool:
     """
     pre: 0 <= op < len(LIST_OPS)
-    pre: 1 <= state <= 2
+    pre: 1 <= state <= 3
     post: _
     """
     return ok(_state_ops('jl1', op, state, v))
@@ -1127,7 +1135,7 @@ def state_ops_jl1(op: int, state: int, v: int) -> bool:
 def state_ops_jl0(op: int, state: int, v: int) -> bool:
     """
     pre: 0 <= op < len(LIST_OPS)
-    pre: 1 <= state <= 2
+    pre: 1 <= state <= 3
     post: _
     """
     return ok(_state_ops('jl0', op, state, v))
@@ -1136,7 +1144,7 @@ def state_ops_jl0(op: int, state: int, v: int) -> bool:
 def state_ops_jd1(op: int, state: int, v: int) -> bool:
     """
     pre: 0 <= op < len(DICT_OPS)
-    pre: 1 <= state <= 2
+    pre: 1 <= state <= 3
     post: _
     """
     return ok(_state_ops('jd1', op, state, v))
@@ -1145,7 +1153,7 @@ def state_ops_jd1(op: int, state: int, v: int) -> bool:
 def state_ops_jd0(op: int, state: int, v: int) -> bool:
     """
     pre: 0 <= op < len(DICT_OPS)
-    pre: 1 <= state <= 2
+    pre: 1 <= state <= 3
     post: _
     """
     return ok(_state_ops('jd0', op, state, v))
@@ -1154,7 +1162,7 @@ def state_ops_jd0(op: int, state: int, v: int) -> bool:
 def state_ops_ia(op: int, state: int, v: int) -> bool:
     """
     pre: 0 <= op < len(LIST_OPS)
-    pre: 1 <= state <= 2
+    pre: 1 <= state <= 3
     post: _
     """
     return ok(_state_ops('ia', op, state, v))
@@ -1163,7 +1171,7 @@ def state_ops_ia(op: int, state: int, v: int) -> bool:
 def state_ops_sa(op: int, state: int, v: int) -> bool:
     """
     pre: 0 <= op < len(LIST_OPS)
-    pre: 1 <= state <= 2
+    pre: 1 <= state <= 3
     post: _
     """
     return ok(_state_ops('sa', op, state, v))
